@@ -169,11 +169,37 @@ class HistGen:
                         break
                 seen_atoms.add(txt)
                 self.pool.append(a)
+            if self.dl_dense and rng.random() < 0.5:
+                self.pool = self.dl_cycle_pool(rng) + self.pool[:max(2, n // 3)]
             ratio = rng.choice([2.5, 3.5, 4.3]) if not self.hard3 else rng.choice([3.8, 4.2, 4.6])
             self.o['max_live'] = max(self.o['max_live'], int(n * ratio))
             self.o['ncmds'] = (self.o['ncmds'][0] + int(n * ratio * 0.8), self.o['ncmds'][1] + int(n * ratio * 1.3))
             if self.hard3:
                 self.o['p_check'] = min(self.o['p_check'], 0.06)
+
+    def dl_cycle_pool(self, rng):
+        """Difference atoms that form a ring v0 -> v1 -> .. -> vk -> v0 whose weights sum to -1, 0 or 1, plus chords vi -> vj
+        that are a little weaker or a little stronger than the path they shortcut: whatever subset and order the search asserts,
+        the solver has to keep shortest distances right when a shorter route to an already visited vertex appears, explain a
+        deduced edge by the path that really implies it, and notice the edge that closes a negative cycle."""
+        sort = rng.choice(gen.PROFILES[self.prof]['nums'])
+        vs = list(self.sig.consts[sort])
+        rng.shuffle(vs)
+        vs = vs[:max(3, min(len(vs), rng.randint(4, 6)))]
+        k = len(vs)
+        w = [rng.randint(-2, 3) for _ in range(k)]
+        w[-1] += rng.choice([-1, -1, 0, 1]) - sum(w)
+
+        def edge(a, b, c):          # a -> b with weight c:  b - a <= c
+            return T('app', 'Bool', head='<=', args=[T('app', sort, head='-', args=[T('var', sort, val=b), T('var', sort, val=a)]), T('num', sort, val=Fraction(c))])
+        atoms = [edge(vs[i], vs[(i + 1) % k], w[i]) for i in range(k)]
+        for _ in range(rng.randint(2, 5)):
+            i = rng.randrange(k)
+            ln = rng.randint(2, k - 1)
+            path = sum(w[(i + d) % k] for d in range(ln))
+            atoms.append(edge(vs[i], vs[(i + ln) % k], path + rng.choice([-1, 0, 1, 2, 5])))
+        rng.shuffle(atoms)
+        return atoms
 
     def clause_from_pool(self):
         r = self.rng
